@@ -68,8 +68,8 @@ type c12RespSpec struct {
 
 type c12DirectScript struct {
 	Server    string        `json:"server"`
-	Err       bool          `json:"err,omitempty"`    // GetServerKeys fails
-	Resp      *c12RespSpec  `json:"resp,omitempty"`   // GetServerKeys answer
+	Err       bool          `json:"err,omitempty"`  // GetServerKeys fails
+	Resp      *c12RespSpec  `json:"resp,omitempty"` // GetServerKeys answer
 	NotaryErr bool          `json:"notary_err,omitempty"`
 	Notary    []c12RespSpec `json:"notary,omitempty"` // LookupServerKeys(server, ...) answer
 }
@@ -488,7 +488,9 @@ func c12Judge(r c12KeyResp, nowLo, nowHi int64) c12Verdict {
 	return v
 }
 
-func (v c12Verdict) acceptable() bool { return v.nameOK && v.signedAll && v.future && !v.odd && !v.bare }
+func (v c12Verdict) acceptable() bool {
+	return v.nameOK && v.signedAll && v.future && !v.odd && !v.bare
+}
 
 func c12Severity(sig string) int {
 	switch {
